@@ -189,6 +189,8 @@ TYPES = [
     ("relation", True), ("scalar", True), ("{a = {b = int}}", True), ("[[int]]", True), ("1", False), ('"x"', False),
     ("1 || 2", False), ("true || null", False), ("{a = int, b = [text]}", True), ("func {a = int} -> [int]", False),
     ("int || text || bool", False), ("{x = int || text, y = func int -> int}", False),
+    # types with a payload-less variant: any array, any function, open tuple with a typed rest
+    ("[]", True), ("func", True), ("{a = int, ..int}", True), ("{a = [], b = func}", True), ("[[]]", True), ("{..[]}", True),
 ]
 TYPE_SLOTS = [
     ("type_def", "type my = %s\nfrom t", False),
@@ -245,3 +247,49 @@ def stmt_programs():
             items.append(("mod{%s+%s}" % (an, bn),
                           "module q {\n  " + a.replace("\n", "\n  ") + "\n  " + b.replace("\n", "\n  ") + "\n}\nfrom t\n"))
     return items
+
+
+# ------------------------------------------------------------------ identifiers that need (or do not need) backticks
+IDENT_WORDS = ["let", "into", "case", "prql", "type", "module", "internal", "func", "import", "enum", "true", "false", "null",
+               "this", "that", "from", "select", "in", "std", "date", "and", "or", "not", "as", "loop", "window", "take",
+               "a b", "a-b", "Ünï", "1a", "a.b", "a+b", "x'y", "日本", "_", "__x", "A", "camelCase", "tab\tname", "semi;colon", "q?"]
+
+
+def ident_programs():
+    """Every hostile identifier in every position an identifier can take (bare, first / middle / last part of a
+    dotted path, alias, parameter, let / module name, join alias, relation-literal field, inside interpolations,
+    named argument of a user function).  -> [(label, source)]"""
+    out = []
+    for w in IDENT_WORDS:
+        q = "`" + w + "`"
+        forms = {
+            "bare": "from t | select {%s}" % q,
+            "bare_pair": "from t | select {%s, b} | filter %s > 1" % (q, q),
+            "path_last": "from t | select {t.%s}" % q,
+            "path_last_cmp": "from t | filter t.%s == \"x\" | select {t.id, t.%s}" % (q, q),
+            "path_this": "from t | derive {z = this.%s + 1}" % q,
+            "path_that": "from t | join u (this.%s == that.%s)" % (q, q),
+            "path_first": "from %s | select {%s.x}" % (q, q),
+            "path_middle": "from t | select {a.%s.b}" % q,
+            "path_both": "from %s | select {%s.%s}" % (q, q, q),
+            "alias": "from t | select {%s = x}" % q,
+            "alias_then_use": "from t | derive {%s = x + 1} | filter %s > 2 | sort {-%s}" % (q, q, q),
+            "from_alias": "from %s = t | select {%s.x}" % (q, q),
+            "join_alias": "from t | join %s = u (t.id == %s.id) | select {%s.y}" % (q, q, q),
+            "let_name": "let %s = (from t | take 3)\nfrom %s | select {x}" % (q, q),
+            "module_name": "module %s {\n  let inner = (from t)\n}\nfrom %s.inner" % (q, q),
+            "func_param": "let f = %s -> %s + 1\nfrom t | derive {y = f x}" % (q, q),
+            "func_named_param": "let f = a %s:1 -> a + %s\nfrom t | derive {y = f %s:2 x}" % (q, q, q),
+            "literal_field": "from [{%s = 1, b = 2}] | select {%s}" % (q, q),
+            "in_fstring": "from t | select {z = f\"{t.%s}-{%s}\"}" % (q, q),
+            "in_sstring": "from t | select {z = s\"COALESCE({t.%s}, {%s})\"}" % (q, q),
+            "sort_group": "from t | group {t.%s} (aggregate {n = count this}) | sort {t.%s}" % (q, q),
+            "exclude": "from t | select {t.%s, t.b, c} | select !{t.%s}" % (q, q),
+            "case_branch": "from t | derive {z = case [t.%s > 1 => t.%s, true => null]}" % (q, q),
+            "range": "from t | filter (x | in t.%s..t.%s)" % (q, q),
+            "annotation": "@{%s = 1}\nlet x = (from t)\nfrom x" % q,
+            "type_field": "type rec = {%s = int}\nfrom t" % q,
+        }
+        for k, src in forms.items():
+            out.append(("ident/%s/%s" % (k, w), src))
+    return out
